@@ -542,6 +542,9 @@ func runFault(cs caseSpec) (o outcome) {
 	if len(plan.BadCloses) > 0 {
 		add("fault-double-close", "the framework closed descriptor(s) %v again after having closed them (ledger)", plan.BadCloses)
 	}
+	if len(plan.NotOpenCloses) > 0 {
+		add("fault-double-close", "the framework called close(2) on descriptor number(s) %v that were not open", plan.NotOpenCloses)
+	}
 	if left := plan.Owned(); len(left) > 0 {
 		sort.Ints(left)
 		add("fault-fd-leak", "accepted descriptors %v were never closed (ledger) after the engine stopped", left)
